@@ -117,10 +117,9 @@ Proof.
     split; [intros [E|[E|[E|[]]]]; congruence|congruence].
   - split.
     + eexists. split; [vm_compute; reflexivity|reflexivity].
-    + exists None. unfold sk_parse_docstring.
-      repeat (first [apply B_nil | eapply B_ok]).
-      * apply (E_try_ok _ _ None _ _ _ _ None None); repeat (first [apply B_nil | eapply B_ok | apply E_call_ok]).
-      * eapply E_branch; [left; reflexivity|apply B_nil].
-      * apply (E_try_ok _ _ None _ _ _ _ None None); repeat (first [apply B_nil | eapply B_ok | apply E_call_ok]).
-      * eapply E_branch; [left; reflexivity|apply B_nil].
+    + (* a quiet run (every call returns, first branch taken) exists whatever shape the regenerated skeleton has *)
+      exists None. unfold sk_parse_docstring.
+      repeat (first [ apply B_nil | eapply B_ok | apply E_call_ok
+                    | (eapply E_branch; [left; reflexivity|])
+                    | apply (E_try_ok _ _ None _ _ _ _ None None) ]).
 Qed.
